@@ -121,6 +121,9 @@ var c20Fixed = []string{
 	"{% ublock %}{% tablerow i in (1..2) %}{{ i }}{% endtablerow %}{% endublock %}", "text {{- nothing -}} text",
 	"a long run of literal text, well over sixty-four bytes, that precedes a table row so that a partial write has room to matter {% tablerow i in (1..2) %}{{ i }}{% endtablerow %} and more text after it",
 	"{{ s | append: ' padded out to a rather long value so that the chunk is big ........................................' }}{% tablerow i in arr cols: 2 %}x{% endtablerow %}",
+	// long chunks without any white space (data URIs, minified scripts, hashes), as text, object value and raw body
+	strings.Repeat("0123456789abcdef", 12), "{{ s }}" + strings.Repeat("x", 90) + "{{ n }}" + strings.Repeat("y/", 60) + "{% if t %}" + strings.Repeat("z", 130) + "{% endif %}",
+	"{% raw %}" + strings.Repeat("r", 100) + "{% endraw %}{{ '" + strings.Repeat("q", 100) + "' | append: s }}{% for i in (1..2) %}" + strings.Repeat("é", 60) + "{% endfor %}",
 	// application tags and blocks over render.Context (custom.go): their output reaches the writer through the library's wrappers
 	"a{% xecho pre-{{ n }}-post %}b{% xwrap {{ s }} %}in{{ n }}{% endxwrap %}c{% xtwice %}{{ n }},{% endxtwice %}d", "{% xfile inc/a.html %}|{% xbfile inc/c.html %}x{% endxbfile %}|{% xwhen t %}yes{{ s }}{% endxwhen %}",
 	"{% for i in (1..2) %}{% xwrap w %}{% tablerow j in (1..2) %}{{ j }}{% endtablerow %}{% endxwrap %}{% xeval i | plus: 1 %}{% endfor %} {%- xget n -%} tail", "x {%- xecho {{- s -}} -%} y{% xset zz = 3 %}{{ zz }}{% xget zz %}",
